@@ -1,4 +1,5 @@
 import HailVerif.Generated.AttemptsTrigger
+import HailVerif.Generated.JobsTrigger
 /-!
 # BatchDB — executable model of the batch service's database state machine (DESIGN.md, Engine E1)
 
@@ -177,40 +178,28 @@ def bpOf (s : State) (b : Nat) : Nat := match findBatch s b with | some x => x.b
 
 def b2i (b : Bool) : Int := if b then 1 else 0
 
-/-- the delta block of `jobs_after_update`, for OLD = `o`, NEW = `n`; `gc` = `is_job_group_cancelled(OLD…)` -/
+def stateStr : JState → String
+  | .Pending => "Pending" | .Ready => "Ready" | .Creating => "Creating" | .Running => "Running"
+  | .Success => "Success" | .Failed => "Failed" | .Error => "Error" | .Cancelled => "Cancelled"
+
+/-- trigger `jobs_after_update` for OLD = `o`, NEW = `n`.  The thirteen deltas are computed by the definition
+GENERATED from the trigger's SQL text (`Generated.JobsTrigger.jobsAfterUpdate`); which row of which table
+receives which delta (the two `INSERT … ON DUPLICATE KEY UPDATE`) is modelled here. -/
 def jobDeltas (s : State) (o n : Job) : List (CKey × Int) :=
   let u := userOf s n.batch
-  let gc := groupCancelled s o.batch o.group
-  let wasMarked := o.cancelled || gc
-  let wasCancelled := !o.alwaysRun && wasMarked
-  let wasCancellable := !o.alwaysRun && !wasMarked
-  let nowMarked := n.cancelled || gc
-  let nowCancelled := !o.alwaysRun && nowMarked
-  let nowCancellable := !o.alwaysRun && !nowMarked
-  let wasReady := o.state = .Ready;       let nowReady := n.state = .Ready
-  let wasRunning := o.state = .Running;   let nowRunning := n.state = .Running
-  let wasCreating := o.state = .Creating; let nowCreating := n.state = .Creating
-  let d (was : Bool) (wc : Bool) (now : Bool) (nc : Bool) : Int := - (b2i was * b2i wc) + b2i now * b2i nc
-  let dReadyCanc := d wasReady wasCancellable nowReady nowCancellable
-  let dReady := d wasReady (!wasCancelled) nowReady (!nowCancelled)
-  let dCancReady := d wasReady wasCancelled nowReady nowCancelled
-  let dRunningCanc := d wasRunning wasCancellable nowRunning nowCancellable
-  let dRunning := d wasRunning (!wasCancelled) nowRunning (!nowCancelled)
-  let dCancRunning := d wasRunning wasCancelled nowRunning nowCancelled
-  let dCreatingCanc := d wasCreating wasCancellable nowCreating nowCancellable
-  let dCreating := d wasCreating (!wasCancelled) nowCreating (!nowCancelled)
-  let dCancCreating := d wasCreating wasCancelled nowCreating nowCancelled
-  let cores := o.cores
+  let D := Generated.JobsTrigger.jobsAfterUpdate (stateStr o.state) (stateStr n.state) (b2i o.cancelled)
+    (b2i n.cancelled) (b2i o.alwaysRun) o.cores (b2i (groupCancelled s o.batch o.group))
   ((ancestorsOf s n.batch n.group).flatMap fun a =>
-    [(CKey.cReady n.batch n.update a n.ic, dReadyCanc),
-     (CKey.cReadyCores n.batch n.update a n.ic, dReadyCanc * cores),
-     (CKey.cCreating n.batch n.update a n.ic, dCreatingCanc),
-     (CKey.cRunning n.batch n.update a n.ic, dRunningCanc),
-     (CKey.cRunningCores n.batch n.update a n.ic, dRunningCanc * cores)]) ++
-  [(CKey.uReady u n.ic, dReady), (CKey.uRunning u n.ic, dRunning), (CKey.uCreating u n.ic, dCreating),
-   (CKey.uReadyCores u n.ic, dReady * cores), (CKey.uRunningCores u n.ic, dRunning * cores),
-   (CKey.uCancReady u n.ic, dCancReady), (CKey.uCancRunning u n.ic, dCancRunning),
-   (CKey.uCancCreating u n.ic, dCancCreating)]
+    [(CKey.cReady n.batch n.update a n.ic, D.delta_n_ready_cancellable_jobs),
+     (CKey.cReadyCores n.batch n.update a n.ic, D.delta_ready_cancellable_cores_mcpu),
+     (CKey.cCreating n.batch n.update a n.ic, D.delta_n_creating_cancellable_jobs),
+     (CKey.cRunning n.batch n.update a n.ic, D.delta_n_running_cancellable_jobs),
+     (CKey.cRunningCores n.batch n.update a n.ic, D.delta_running_cancellable_cores_mcpu)]) ++
+  [(CKey.uReady u n.ic, D.delta_n_ready_jobs), (CKey.uRunning u n.ic, D.delta_n_running_jobs),
+   (CKey.uCreating u n.ic, D.delta_n_creating_jobs),
+   (CKey.uReadyCores u n.ic, D.delta_ready_cores_mcpu), (CKey.uRunningCores u n.ic, D.delta_running_cores_mcpu),
+   (CKey.uCancReady u n.ic, D.delta_n_cancelled_ready_jobs), (CKey.uCancRunning u n.ic, D.delta_n_cancelled_running_jobs),
+   (CKey.uCancCreating u n.ic, D.delta_n_cancelled_creating_jobs)]
 
 /-- `UPDATE jobs SET … WHERE p`: every row with `p` becomes `f row`, firing `jobs_after_update` for it -/
 def updateJobs (s : State) (p : Job → Bool) (f : Job → Job) : State :=
